@@ -10,6 +10,7 @@ import "time"
 //     of its dependencies begins, (iii) the API call (ManageModules / Shutdown) that stopped it returns;
 //  3. that API call takes less than half the stop timeout (items return within milliseconds of cancellation);
 //  4. in the final snapshot all work counters are zero;
+//     a further Shutdown call made while the first is at work is held to (iii) as well;
 //  5. tasks created for and events triggered on a stopped module are not executed; a worker or microtask
 //     started on it sees an already cancelled context.
 func CheckC05(sc *Scenario, res *Result) *Violation {
@@ -88,6 +89,13 @@ func CheckC05(sc *Scenario, res *Result) *Violation {
 			}
 		case "api":
 			switch e.Info {
+			case "shutdown-extra":
+				// a further caller of Shutdown while the first call is at work: it may not return early either
+				for _, ep := range active {
+					if v := checkBarrier(ep, "a concurrent second Shutdown call returned", e.Seq); v != nil {
+						return v
+					}
+				}
 			case "manage", "shutdown":
 				for _, ep := range active {
 					if v := checkBarrier(ep, e.Info+" returned", e.Seq); v != nil {
@@ -177,9 +185,16 @@ func C05Stats(sc *Scenario, res *Result) (classes []string, runningAtStop int) {
 			add("sigstorm_done_called_concurrently")
 		case "poststop-probe":
 			add("poststop_probe")
+		case "relaunch":
+			add("module_restarted_and_work_relaunched")
+		case "straddle-begin":
+			add("microtask_running_across_module_start")
 		case "api":
 			if e.Info == "manage" {
 				add("with_manage")
+			}
+			if e.Info == "shutdown-extra" {
+				add("concurrent_shutdown_callers")
 			}
 		}
 	}
